@@ -278,7 +278,8 @@ def _check_board(board, a, got_board, got_rew, got_can, tag="move"):
     if not np.array_equal(np.asarray(got_board).astype(np.int64), want):
         out.append(("synthetic.board", f"{tag} differs from the slide/merge rule",
                     f"board {b} action {a}: env {np.asarray(got_board).tolist()} model {want.tolist()}"))
-    if abs(float(got_rew) - rew) > 1e-3:
+    # float32 rewards: exact for small tiles, relative tolerance for late-game values that float32 cannot hold exactly
+    if abs(float(got_rew) - rew) > max(1e-3, 1e-6 * abs(rew)):
         out.append(("synthetic.board", f"{tag} reward differs from the sum of merged tiles",
                     f"board {b} action {a}: env {float(got_rew)} model {rew}"))
     if bool(got_can) != (not np.array_equal(want, np.asarray(board).astype(np.int64))):
@@ -349,8 +350,21 @@ def synthetic_c09(ctx, item, seed, tier):
                              {"env": "Game2048", "synthetic": True, "kind": "named", "board": board.tolist(),
                               "action": a}, size=9)
 
+    # complete table of equal-tile merges for every exponent a 6x6 board can hold (1..36): rows [e, e, 0, ...] and
+    # [e, e, e, e, 0, 0] embedded in otherwise empty 6x6 boards, all four moves
+    if shard == 0:
+        late = []
+        for e in range(1, 37):
+            for row in ([e, e, 0, 0, 0, 0], [e, e, e, e, 0, 0]):
+                bd = np.zeros((6, 6), np.int32)
+                bd[2] = row
+                late.append(bd)
+                late.append(bd.T.copy())
+        _run_boards(ctx, np.stack(late), "late6x6")
+        ctx.exhaustive["game2048_equal_merges_6x6_exp1to36"] = True
+
     # Hypothesis-drawn full boards (sizes 2..6, dense / sparse, low exponents so that merges are frequent)
-    n_cases = (12 if tier == "quick" else 60)
+    n_cases = (30 if tier == "quick" else 120)
 
     def one(n, hi, boards):
         arr = np.array(boards, dtype=np.int32).reshape(-1, n, n)
@@ -359,9 +373,11 @@ def synthetic_c09(ctx, item, seed, tier):
 
     @st.composite
     def cases(draw):
-        n = draw(st.sampled_from([3, 4, 4, 5, 6]))
-        hi = draw(st.sampled_from([1, 2, 3, 6, 12]))
-        cell = st.one_of(st.just(0), st.integers(0, hi), st.integers(1, min(hi, 3)))
+        n = draw(st.sampled_from([3, 4, 4, 5, 6, 6]))
+        # also late-game boards: a board of n x n cells can hold tiles up to 2^(n*n + 1) (documented larger boards
+        # reach exponents beyond 31, where int32 arithmetic on tile *values* would overflow)
+        hi = draw(st.sampled_from([1, 2, 3, 6, 12, n * n + 1, min(31, n * n + 1), min(32, n * n + 1)]))
+        cell = st.one_of(st.just(0), st.integers(0, hi), st.integers(1, min(hi, 3)), st.integers(max(1, hi - 2), hi))
         k = 32
         boards = draw(st.lists(st.lists(cell, min_size=n * n, max_size=n * n), min_size=k, max_size=k))
         return {"n": n, "hi": hi, "boards": boards}
